@@ -407,6 +407,7 @@ func runR195(c *core.Ctx) {
 		return true
 	})
 	var fresh func(e ast.Expr) bool
+	depth := 0
 	fresh = func(e ast.Expr) bool {
 		switch y := core.Unparen(e).(type) {
 		case *ast.CompositeLit:
@@ -415,7 +416,30 @@ func runR195(c *core.Ctx) {
 			_, isLit := core.Unparen(y.X).(*ast.CompositeLit)
 			return y.Op == token.AND && isLit
 		case *ast.Ident:
-			return core.IsNil(inf, y)
+			if core.IsNil(inf, y) {
+				return true
+			}
+			// a local of this function that only ever holds fresh values (`m := make(…)`, filled, then put into the copy)
+			if v, ok := core.ObjOf(inf, y).(*types.Var); ok && !v.IsField() && v != recv && v.Pos() > fd.Body.Pos() && v.Pos() < fd.Body.End() && depth < 3 {
+				defs, all := 0, true
+				depth++
+				ast.Inspect(fd.Body, func(z ast.Node) bool {
+					if as, ok := z.(*ast.AssignStmt); ok {
+						for i, l := range as.Lhs {
+							if core.ObjOf(inf, l) == v {
+								defs++
+								if len(as.Lhs) != len(as.Rhs) || !fresh(as.Rhs[i]) {
+									all = false
+								}
+							}
+						}
+					}
+					return true
+				})
+				depth--
+				return defs > 0 && all
+			}
+			return false
 		case *ast.CallExpr:
 			if b, ok := core.ObjOf(inf, y.Fun).(*types.Builtin); ok {
 				switch b.Name() {
